@@ -57,8 +57,11 @@ class Program:
         self.decorated = None  # type: Any
 
 
-FORMS = ["none", "class", "instance", "function", "method", "nonexc_factory", "invalid_int", "invalid_str",
-         "invalid_class", "base_class", "base_instance", "falsy_class", "falsy_instance"]
+FORMS = ["none", "class", "instance", "invalid_int", "invalid_str", "invalid_class", "base_class", "base_instance",
+         "falsy_class", "falsy_instance",
+         # factories (for these every subset of the available names is tried); the last two return a non-exception
+         "function", "method", "nonexc_factory", "none_factory"]
+FORM_GROUPS = [("plain", 0, 9), ("function", 10, 10), ("method", 11, 11), ("nonexc", 12, 13)]
 ROLES = ["pre", "post", "inv"]
 KINDS = ["func", "method", "afunc", "amethod"]
 _CACHE = {}  # type: Dict[Tuple[Any, ...], Program]
@@ -85,6 +88,8 @@ def _build(role: str, kind: str, form: str, subset: Tuple[bool, ...]) -> Program
         prog.h.err_calls.append(kw)
         if form == "nonexc_factory":
             return "not an exception"
+        if form == "none_factory":
+            return None  # (the forgotten ``return``)
         return MyErr("from factory")
 
     class Maker:
@@ -104,7 +109,7 @@ def _build(role: str, kind: str, form: str, subset: Tuple[bool, ...]) -> Program
         error = MyErr("the instance")
     elif form == "base_instance":
         error = MyBase("the instance")
-    elif form in ("function", "nonexc_factory"):
+    elif form in ("function", "nonexc_factory", "none_factory"):
         error = mkfn(asked, err_impl, name="make_error")
     elif form == "method":
         fn = mkfn(("me",) + asked, err_impl, name="make_error_m")
@@ -229,7 +234,7 @@ def run_err(role_i: int, kind_i: int, form_i: int, s0: bool, s1: bool, s2: bool,
         kind = "method"
     avail = _avail(role, kind)
     subset = subset[: len(avail)]
-    if form not in ("function", "method", "nonexc_factory"):
+    if form not in ("function", "method", "nonexc_factory", "none_factory"):
         subset = tuple(False for _ in avail)
     key = (role, kind, form, subset)
     with untraced():
@@ -310,7 +315,7 @@ def run_err(role_i: int, kind_i: int, form_i: int, s0: bool, s1: bool, s2: bool,
                             ok = False
                     if "_KWARGS" in kw and (list(kw["_KWARGS"].keys()) != ["y"] or kw["_KWARGS"]["y"] is not SENT_Y):
                         ok = False
-            elif form == "nonexc_factory":
+            elif form in ("nonexc_factory", "none_factory"):
                 if type(e) is not TypeError or errs_first != 1:
                     ok = False
         # pre: body not entered; post/inv-before: per C01/C02/C03 (not asserted here)
@@ -328,14 +333,17 @@ def harnesses(tier: str) -> List[H]:
         kinds = [0] if role == "inv" else ([0, 1, 2] if tier == "quick" else [0, 1, 2, 3])
         for kind_i in kinds:
             nbits = len(_avail(role, KINDS[kind_i] if role != "inv" else "method"))
-            params = [I("form_i", 0, len(FORMS) - 1)] + [B("s%d" % i) for i in range(nbits)] + [B("t"), I("x", -4, 12), B("xnone")]
-            defaults = {"role_i": role_i, "kind_i": kind_i}
-            for i in range(nbits, 7):
-                defaults["s%d" % i] = False
-            name = "err_{}_{}".format(role, KINDS[kind_i] if role != "inv" else "class")
-            out.append(H(name, bind(run_err, (), ALL, defaults, [p.name for p in params]), params, tiers=(tier,),
-                         timeout=400,
-                         family="role={} callable={}: error form in {}; for function/method factories every subset of "
-                                "the {} names available to this role".format(role, name.split("_", 2)[2], FORMS, nbits),
-                         family_size=len(FORMS) - 3 + 3 * 2 ** nbits))
+            for (gname, lo, hi) in FORM_GROUPS:
+                bits = nbits if gname != "plain" else 0
+                params = [I("form_i", lo, hi)] + [B("s%d" % i) for i in range(bits)] + [B("t"), I("x", -4, 12), B("xnone")]
+                defaults = {"role_i": role_i, "kind_i": kind_i}
+                for i in range(bits, 7):
+                    defaults["s%d" % i] = False
+                name = "err_{}_{}_{}".format(role, KINDS[kind_i] if role != "inv" else "class", gname)
+                out.append(H(name, bind(run_err, (), ALL, defaults, [p.name for p in params]), params, tiers=(tier,),
+                             timeout=400,
+                             family="role={} callable={}: error form in {}{}".format(
+                                 role, KINDS[kind_i] if role != "inv" else "class", FORMS[lo:hi + 1],
+                                 "; every subset of the {} names available to this role".format(nbits) if bits else ""),
+                             family_size=(hi - lo + 1) * 2 ** bits))
     return out
